@@ -1231,6 +1231,14 @@ pub fn check_c15(case: &FCase, run: &Run) -> Result<(bool, Vec<String>), Violati
                         }
                     }
                 }
+                // every job that reached the factory before the drain request is worked off, not shut down
+                if let Some(drain_idx) = ev.iter().position(|(_, e)| matches!(e, FEv::DrainRequested)) {
+                    for (id, f) in facts.iter() {
+                        if *id < 9000 && f.sent && f.dispatched_at < drain_idx && f.discards.iter().any(|(_, r)| r.contains("Shutdown")) {
+                            return Err(viol("C15/accepted-job-shut-down-by-drain", format!("job {id} was sent to the factory before DrainRequests, yet the drained factory stopped without running it and reported it as discarded at shutdown: {f:?}")));
+                        }
+                    }
+                }
                 if case.ending == Ending::DrainEarly && facts.values().any(|f| !f.starts.is_empty()) {
                     nontrivial = true;
                     labels.push("drain-with-jobs-in-flight".into());
